@@ -106,6 +106,9 @@ pub fn run_grid(ctx: &Ctx, spec: GridSpec) {
 
 /// Replay one recorded execution with tracing and report whether the signature reproduces.
 pub fn replay(ctx: &Ctx, r: &serde_json::Value) {
+    if std::env::var("PROBE_LOG").is_ok() {
+        let _ = tracing_subscriber::fmt().with_max_level(tracing::Level::TRACE).without_time().with_target(false).try_init();
+    }
     let d = &r["detail"];
     let cfg: Cfg = serde_json::from_value(d["cfg"].clone()).unwrap_or_else(|e| vcommon::machinery_failure(&format!("bad cfg in replay: {}", e)));
     let choices: Vec<u8> = d["choices"].as_array().map(|a| a.iter().map(|x| x.as_u64().unwrap() as u8).collect()).unwrap_or_default();
